@@ -6,6 +6,8 @@
     the same schema accepts.
 """
 import copy
+import decimal
+import re
 import xml.etree.ElementTree as ET
 
 import xmlschema
@@ -242,6 +244,53 @@ def tpl_doc(rnd):
     return doc
 
 
+# ------------------------------------------------------------------------------------ template: value constraints
+
+FX_XSD = ('<xs:schema xmlns:xs="http://www.w3.org/2001/XMLSchema" xmlns:t="urn:t" targetNamespace="urn:t" '
+          'elementFormDefault="qualified"><xs:simpleType name="ints"><xs:list itemType="xs:int"/></xs:simpleType>'
+          '<xs:complexType name="SC"><xs:simpleContent><xs:extension base="xs:int"><xs:attribute name="u" type="xs:string"/>'
+          '</xs:extension></xs:simpleContent></xs:complexType>'
+          '<xs:element name="root"><xs:complexType><xs:sequence>'
+          '<xs:element name="f" type="xs:int" fixed="7" minOccurs="0" maxOccurs="unbounded"/>'
+          '<xs:element name="fs" type="xs:string" fixed="abc" minOccurs="0"/>'
+          '<xs:element name="fc" type="t:SC" fixed="7" minOccurs="0" maxOccurs="unbounded"/>'
+          '<xs:element name="l" type="t:ints" minOccurs="0" maxOccurs="unbounded"/>'
+          '<xs:element name="l1" type="t:ints" minOccurs="0"/>'
+          '<xs:element name="s" type="xs:string" minOccurs="0" maxOccurs="unbounded"/>'
+          '</xs:sequence><xs:attribute name="a" type="xs:int" fixed="3"/><xs:attribute name="b" type="xs:token" fixed="x y"/>'
+          '<xs:attribute name="la" type="t:ints"/></xs:complexType></xs:element></xs:schema>')
+
+
+class FxG:
+    tns = 'urn:t'
+
+    @staticmethod
+    def xsd():
+        return FX_XSD
+
+
+def fx_doc(rnd):
+    """Valid documents over fixed element / attribute values (in several lexical forms) and list values of any length,
+    the empty list included."""
+    parts = []
+    for _ in range(rnd.choice([0, 1, 2])):
+        parts.append('<p:f>%s</p:f>' % rnd.choice(['7', '07', ' 7 ', '+7', '']))
+    if rnd.random() < .5:
+        parts.append('<p:fs>%s</p:fs>' % rnd.choice(['abc', '']))
+    for _ in range(rnd.choice([0, 1, 2])):
+        parts.append('<p:fc%s>%s</p:fc>' % (rnd.choice(['', ' u="k"']), rnd.choice(['7', '07', ''])))
+    for _ in range(rnd.choice([0, 1, 2, 3])):
+        parts.append('<p:l>%s</p:l>' % rnd.choice(['', '1', '1 2', ' 3  4 ']))
+    if rnd.random() < .5:
+        parts.append('<p:l1>%s</p:l1>' % rnd.choice(['', '', '5 6']))
+    for _ in range(rnd.choice([0, 1, 2])):
+        parts.append('<p:s>%s</p:s>' % rnd.choice(['', 'v', 'a b']))
+    # the fixed attributes are always written: the decoded data carries them anyway (also with use_defaults=False), so
+    # a document that omits them is re-encoded WITH them, which the schema-normalised infoset allows
+    keep = [rnd.choice(vs) for vs in ([' a="3"', ' a="03"'], [' b="x y"', ' b=" x  y "'], ['', ' la=""', ' la="1 2"'])]
+    return '<p:root xmlns:p="urn:t"%s>%s</p:root>' % (''.join(keep), ''.join(parts))
+
+
 # ------------------------------------------------------------------------------------ (b) mutations
 
 def paths_of(d, path=()):
@@ -269,7 +318,7 @@ def mutate(data, rnd):
     for _ in range(10):
         p, v = rnd.choice(ps)
         parent = get_at(d, p[:-1])
-        op = rnd.choice(['drop', 'dup', 'retype', 'reorder', 'rename', 'wrap', 'none_value'])
+        op = rnd.choice(['drop', 'dup', 'retype', 'reorder', 'rename', 'wrap', 'none_value', 'revalue'])
         try:
             if op == 'drop':
                 del parent[p[-1]]
@@ -282,6 +331,12 @@ def mutate(data, rnd):
                 parent[p[-1]] = new
                 if type(new) is type(v) and not isinstance(new, dict):
                     op = 'revalue'          # same Python type, another value: not a type confusion
+            elif op == 'revalue' and isinstance(v, bool):
+                parent[p[-1]] = not v
+            elif op == 'revalue' and isinstance(v, (int, float, decimal.Decimal)):
+                parent[p[-1]] = v + rnd.choice([1, -1, 100])
+            elif op == 'revalue' and isinstance(v, str) and not str(p[-1]).startswith(('@xmlns', 'xmlns')):
+                parent[p[-1]] = rnd.choice([v + 'x', v.upper(), v[:-1]]) if v else 'x'
             elif op == 'reorder' and isinstance(parent, list) and len(parent) > 1:
                 parent.reverse()
             elif op == 'reorder' and isinstance(parent, dict) and len(parent) > 1:
@@ -374,13 +429,32 @@ def encode_soundness(s, g, doc, name, conv, rnd, st, n_mut):
 # ------------------------------------------------------------------------------------ protocol
 
 def shards(tier, seed):
-    return [(k, tier, seed) for k in range(16)] + [('tpl%d' % k, tier, seed) for k in range(2)]
+    return [(k, tier, seed) for k in range(16)] + [('tpl%d' % k, tier, seed) for k in range(2)] + \
+           [('fx%d' % k, tier, seed) for k in range(2)]
 
 
 def run_shard(desc):
     from hypothesis import strategies as hst
     k, tier, seed = desc
     st = core.Stats()
+    if isinstance(k, str) and k.startswith('fx'):
+        schemas = [xmlschema.XMLSchema10(FX_XSD), xmlschema.XMLSchema11(FX_XSD)]
+
+        def fbody(rnd, st_):
+            s = schemas[rnd.random() < .3]
+            doc = fx_doc(rnd)
+            st_.sample({'value-constraint doc': doc[:300]}, cap=2)
+            recs = []
+            for name, conv, kw in LOSSLESS + DICT:
+                st_.nt((doc, name))
+                # a repeatable element of list type with no items: see C05-KF-empty-list-element
+                ecl = ['empty-list-typed-element'] if name == 'default' and re.search(r'<p:l>\s*</p:l>', doc) else []
+                recs += roundtrip(s, FxG, doc, name, conv, kw, st_, 'fx', classes=ecl)
+                recs += encode_soundness(s, FxG, doc, name, conv, rnd, st_, 3)
+            return recs
+        core.hyp_drive(st, PROPERTY, hst.randoms(use_true_random=False), fbody, 300 if tier == 'thorough' else 40,
+                       core.derive_seed(seed, 'C05fx', k))
+        return st
     if isinstance(k, str):
         schemas = [xmlschema.XMLSchema10(TPL_XSD), xmlschema.XMLSchema11(TPL_XSD)]
 
@@ -468,6 +542,8 @@ def replay(record):
             rcl = ['nil-on-list-type'] if ('nil=' in doc and 'itemType' in xsd) else []
             if inp.get('label') == 'dict/contiguous' and list_with_attrs(xsd, doc):
                 rcl.append('list-simple-content-with-attributes')
+            if inp.get('label') == 'fx' and name == 'default' and re.search(r'<p:l>\s*</p:l>', doc):
+                rcl.append('empty-list-typed-element')
             recs = roundtrip(s, G, doc, name, CONV[name], {}, st, inp.get('label', ''), rcl)
         else:
             recs = []
